@@ -2,8 +2,10 @@
 //! tree on every run) and prints one JSON line per case: the input and the implementation's
 //! canonicalised observation, both also as a Coq term for the model side.
 mod common;
+mod c16;
 mod c13;
 mod c08;
+mod c05;
 
 fn main() {
     let args: Vec<String> = std::env::args().collect();
@@ -53,7 +55,10 @@ fn main() {
 fn generate(prop: &str, seed: u64, thorough: bool) -> Vec<serde_json::Value> {
     match prop {
         "C13" => c13::generate(seed, thorough),
+        "C16" => c16::generate(seed, thorough),
         "C08" => c08::generate(seed, thorough),
+        "C05" => c05::generate(seed, thorough),
+        "C11" => c05::generate_c11(seed, thorough),
         "C12" => c08::generate_c12(seed, thorough),
         other => { eprintln!("unknown property {}", other); std::process::exit(2); }
     }
@@ -62,7 +67,9 @@ fn generate(prop: &str, seed: u64, thorough: bool) -> Vec<serde_json::Value> {
 fn run_case(prop: &str, id: usize, input: &serde_json::Value) {
     match prop {
         "C13" => c13::run_case(id, input),
+        "C16" => c16::run_case(id, input),
         "C08" | "C12" => c08::run_case(id, input),
+        "C05" | "C11" => c05::run_case(id, input),
         other => { eprintln!("unknown property {}", other); std::process::exit(2); }
     }
 }
